@@ -6,6 +6,8 @@ use crate::util::*;
 use crate::Emitter;
 use air::trace::*;
 use vm_core::{Felt, FieldElement, StarkField};
+use winter_air::Air;
+use winter_prover::Trace;
 
 const S: usize = STACK_TRACE_OFFSET;
 const B0: usize = STACK_TRACE_OFFSET + 16;
@@ -205,6 +207,72 @@ pub fn generate(em: &mut Emitter, seed: u64, thorough: bool) {
     for (k, (n, ex)) in missed.iter() {
         em.oracle_failures.push(format!("C04 altered cell accepted by every transition constraint: {} ({} times), e.g. {}", k, n, ex));
     }
+    // chiplets (hasher, bitwise, memory, kernel ROM) and range checker
+    let mut table: std::collections::BTreeMap<String, (u64, u64, String)> = Default::default();
+    let mut chip_perturbations = 0u64;
+    let kernel = "export.k1 push.1 drop end\nexport.k2 push.2 drop end\n";
+    let chip_progs: Vec<(&str, Option<&str>, Vec<u64>, Vec<u64>)> = vec![
+        ("begin hperm hmerge hash end", None, vec![1, 2, 3, 4, 5, 6, 7, 8, 9, 10, 11, 12], vec![]),
+        ("begin u32and u32xor u32or u32not end", None, vec![0xFFFF_FFFF, 0x1234_5678, 7, 0, 0x8000_0001], vec![]),
+        ("begin push.5 mem_store.3 mem_load.3 push.1.2.3.4 mem_storew.9 dropw padw mem_loadw.9 mem_load.3 push.7 mem_store.3 mem_load.4294967295 mem_load.0 end", None, vec![], vec![]),
+        ("proc.f push.9 mem_store.3 mem_load.3 mem_load.4 end begin push.5 mem_store.3 call.f mem_load.3 call.f end", None, vec![], vec![]),
+        ("begin push.100 movdn.12 mem_stream push.200 movdn.12 adv_pipe hperm end", None, vec![], vec![1, 2, 3, 4, 5, 6, 7, 8]),
+        ("begin syscall.k1 syscall.k2 syscall.k1 push.3 mem_store.1 end", Some(kernel), vec![], vec![]),
+        ("begin push.1 u32split drop push.65535 push.4294967295 u32wrapping_add push.70000 u32split drop drop drop end", None, vec![], vec![]),
+    ];
+    for (src, k, st, adv) in chip_progs.iter() {
+        let p = match assemble(*k, src, false) {
+            Ok(p) => p,
+            Err(e) => {
+                em.oracle_failures.push(format!("C04 chiplet program does not assemble: {} :: {}", src, e));
+                continue;
+            }
+        };
+        if let Ok((mut trace, inputs)) = execute_trace(&p, st, adv) {
+            let ctx = AirCtx::new(&trace, inputs);
+            chip_perturbations += chiplet_monitor(&ctx, &mut trace, &mut rng, &mut table, src);
+        }
+    }
+    // Merkle operations exercise the MP_VERIFY / MR_UPDATE hasher selectors
+    {
+        use processor::{crypto::{MerkleStore, MerkleTree}, AdviceInputs, DefaultHost, MemAdviceProvider};
+        let leaves: Vec<vm_core::Word> = (0..8u64).map(|i| [Felt::new(i + 1), Felt::new(2 * i), Felt::new(7), Felt::new(i * i)]).collect();
+        let tree = MerkleTree::new(leaves.clone()).unwrap();
+        let store = MerkleStore::from(&tree);
+        let root: vm_core::Word = tree.root().into();
+        for (src, extra) in [("begin mtree_get end", vec![]), ("begin mtree_set end", vec![9u64, 8, 7, 6])] {
+            let p = assemble(None, src, false).unwrap();
+            let mut st: Vec<u64> = vec![3, 5];
+            st.extend(root.iter().rev().map(|f| f.as_int()));
+            st.extend(extra.iter());
+            let mut rev = st.clone();
+            rev.reverse();
+            let inputs = processor::StackInputs::try_from_values(rev).unwrap();
+            let host = DefaultHost::new(MemAdviceProvider::from(AdviceInputs::default().with_merkle_store(store.clone())));
+            if let Ok(mut trace) = processor::execute(&p, inputs.clone(), host, processor::ExecutionOptions::default()) {
+                let ctx = AirCtx::new(&trace, inputs);
+                chip_perturbations += chiplet_monitor(&ctx, &mut trace, &mut rng, &mut table, src);
+            }
+        }
+    }
+    let mut free_cells = 0u64;
+    for (key, (acc, tot, ex)) in table.iter() {
+        if *acc > 0 {
+            if chiplet_cell_is_free(key, *acc, *tot) {
+                free_cells += 1;
+            } else {
+                em.oracle_failures.push(format!("C04 altered chiplet/range cell accepted by every transition constraint: {} ({} of {} alterations), e.g. {}", key, acc, tot, ex));
+            }
+        }
+    }
+    if std::env::var("MVH_CHIP_TABLE").is_ok() {
+        for (key, (acc, tot, ex)) in table.iter() {
+            eprintln!("CHIP {} | {}/{} | {}", key, acc, tot, ex);
+        }
+    }
+    em.stat("chiplet_range_perturbations", chip_perturbations);
+    em.stat("chiplet_cell_classes", table.len());
+    em.stat("chiplet_cell_classes_documented_free", free_cells);
     em.stat("row_pairs", rows_done);
     em.stat("perturbations", perturbations);
     em.stat("rows_per_opcode", format!("{:?}", per_op));
@@ -212,6 +280,190 @@ pub fn generate(em: &mut Emitter, seed: u64, thorough: bool) {
     air_correspondence(em, &mut rng, if thorough { 60 } else { 6 }, &honest_frames);
     em.stat("air_model_frames_random_per_opcode", if thorough { 60 } else { 6 });
     em.stat("air_model_frames_honest", honest_frames.len());
+}
+
+
+// ---- chiplets and range checker: negative monitor ------------------------------------------------
+
+const CH: usize = CHIPLETS_OFFSET;
+
+/// Kind of a chiplet row from its selector columns, with the sub-kind that decides which cells the
+/// transition constraints tie (position in the 8-row cycle, operation selectors).
+fn chiplet_kind(row: &[Felt], step: usize) -> (String, bool) {
+    let s = |i: usize| row[CH + i].as_int();
+    if s(0) == 0 {
+        // hasher: selectors s1..s3, cycle position
+        (format!("hasher[pos={} sel={}{}{}]", step % 8, s(1), s(2), s(3)), true)
+    } else if s(1) == 0 {
+        (format!("bitwise[pos={} op={}]", step % 8, s(2)), true)
+    } else if s(2) == 0 {
+        (format!("memory[sel={}{}]", s(3), s(4)), true)
+    } else if s(3) == 0 {
+        ("kernelrom".to_string(), true)
+    } else {
+        ("padding".to_string(), false)
+    }
+}
+
+/// Alters every chiplet / range-checker cell of every row of the chiplet and range regions of honest
+/// traces and records which alterations are accepted by BOTH adjacent transitions (main constraints,
+/// and for the range checker also the auxiliary LogUp constraint). Returns (key -> (accepted, total, example)).
+fn chiplet_monitor(
+    ctx: &AirCtx,
+    trace: &mut processor::ExecutionTrace,
+    rng: &mut Rng,
+    table: &mut std::collections::BTreeMap<String, (u64, u64, String)>,
+    what: &str,
+) -> u64 {
+    let mut perturbations = 0u64;
+    let summary = *trace.trace_len_summary();
+    let cl = summary.chiplets_trace_len();
+    let chip_rows = cl.hash_chiplet_len() + cl.bitwise_chiplet_len() + cl.memory_chiplet_len() + cl.kernel_rom_len();
+    let last = ctx.last_step; // transitions (last-1, last) are constrained, (last, last+1) is exempt
+    // auxiliary segment for the range checker's LogUp column
+    let rand: Vec<Felt> = (0..16).map(|_| Felt::new(1 + rng.next() % (P - 1))).collect();
+    let mut rand_elements = winter_air::AuxTraceRandElements::new();
+    rand_elements.add_segment_elements(rand.clone());
+    let aux: winter_prover::matrix::ColMatrix<Felt> = trace.build_aux_segment(&[], &rand).expect("aux segment");
+    let aux_row = |r: usize| -> Vec<Felt> { (0..aux.num_cols()).map(|c| aux.get(c, r)).collect() };
+    let aux_ok = |cur: &[Felt], nxt: &[Felt], step: usize| -> bool {
+        let main_frame = winter_air::EvaluationFrame::from_rows(cur.to_vec(), nxt.to_vec());
+        let aux_frame = winter_air::EvaluationFrame::from_rows(aux_row(step), aux_row(step + 1));
+        let mut out = vec![Felt::ZERO; ctx.air.context().num_aux_transition_constraints()];
+        ctx.air.evaluate_aux_transition(&main_frame, &aux_frame, &ctx.periodic_at(step), &rand_elements, &mut out);
+        out.iter().all(|e| *e == Felt::ZERO)
+    };
+    let main_ok = |cur: &[Felt], nxt: &[Felt], step: usize| -> bool { ctx.eval(cur, nxt, step).iter().all(|e| *e == Felt::ZERO) };
+
+    // --- chiplet columns -----------------------------------------------------------------------
+    let upto = (chip_rows + 2).min(last);
+    for r in 1..upto {
+        let (kind, _) = chiplet_kind(&ctx.rows[r], r);
+        // the AIR of this version has no constraints for kernel ROM rows; padding rows carry nothing
+        if kind == "padding" || kind == "kernelrom" {
+            continue;
+        }
+        let (prev_kind, _) = chiplet_kind(&ctx.rows[r - 1], r - 1);
+        let prev_class = prev_kind.split('[').next().unwrap().to_string();
+        // memory: is this the first access to its (ctx, addr)?
+        let mut extra = String::new();
+        if kind.starts_with("memory") && prev_class == "memory" {
+            let same = ctx.rows[r][CH + 5] == ctx.rows[r - 1][CH + 5] && ctx.rows[r][CH + 6] == ctx.rows[r - 1][CH + 6];
+            extra = if same { " same-addr".into() } else { " new-addr".into() };
+        }
+        for c in 0..CHIPLETS_WIDTH {
+            let col = CH + c;
+            let orig = ctx.rows[r][col];
+            let cands = [orig + Felt::ONE, orig - Felt::ONE, Felt::ZERO, Felt::ONE, Felt::new(rng.next() % P), orig + Felt::new(1 << 16)];
+            for v in cands {
+                if v == orig {
+                    continue;
+                }
+                let mut row = ctx.rows[r].clone();
+                row[col] = v;
+                perturbations += 1;
+                let ok1 = main_ok(&ctx.rows[r - 1], &row, r - 1);
+                let ok2 = r + 1 > last || main_ok(&row, &ctx.rows[r + 1], r);
+                let key = format!("{}{} after {} col{}", kind, extra, prev_class, c);
+                let e = table.entry(key).or_insert((0, 0, String::new()));
+                e.1 += 1;
+                if ok1 && ok2 {
+                    e.0 += 1;
+                    if e.2.is_empty() {
+                        e.2 = format!("row {} chiplet column {}: {} -> {} in {}", r, c, orig.as_int(), v.as_int(), what);
+                    }
+                }
+            }
+        }
+    }
+    // --- range checker columns (multiplicity, value) ----------------------------------------------
+    for r in 1..last {
+        for c in 0..RANGE_CHECK_TRACE_WIDTH {
+            let col = RANGE_CHECK_TRACE_OFFSET + c;
+            let orig = ctx.rows[r][col];
+            // the value of a row that is looked up zero times (bridge rows between looked-up values,
+            // the 65535 padding) only has to keep the deltas valid: another valid table, not a deviation
+            if c == 1 && ctx.rows[r][RANGE_CHECK_TRACE_OFFSET] == Felt::ZERO {
+                continue;
+            }
+            let cands = [orig + Felt::ONE, orig - Felt::ONE, Felt::ZERO, Felt::new(rng.next() % P), orig + Felt::new(3)];
+            for v in cands {
+                if v == orig {
+                    continue;
+                }
+                let mut row = ctx.rows[r].clone();
+                row[col] = v;
+                perturbations += 1;
+                let ok1 = main_ok(&ctx.rows[r - 1], &row, r - 1) && aux_ok(&ctx.rows[r - 1], &row, r - 1);
+                let ok2 = r + 1 > last || (main_ok(&row, &ctx.rows[r + 1], r) && aux_ok(&row, &ctx.rows[r + 1], r));
+                let key = format!("range col{}", c);
+                let e = table.entry(key).or_insert((0, 0, String::new()));
+                e.1 += 1;
+                if ok1 && ok2 {
+                    e.0 += 1;
+                    if e.2.is_empty() {
+                        e.2 = format!("row {} range column {}: {} -> {} in {}", r, c, orig.as_int(), v.as_int(), what);
+                    }
+                }
+            }
+        }
+        if r > 300 {
+            break;
+        }
+    }
+    perturbations
+}
+
+/// Cells that the transition constraints of the AIR leave free by design (calibrated on the unchanged
+/// tree and cross-read with docs/src/design/chiplets/{hasher,bitwise,memory}.md): they are inputs of
+/// a new computation or are tied by the chiplets bus, not by the chiplet's internal logic.
+fn chiplet_cell_is_free(key: &str, acc: u64, tot: u64) -> bool {
+    let col: usize = key.rsplit("col").next().and_then(|c| c.parse().ok()).unwrap_or(99);
+    let hasher = key.starts_with("hasher");
+    let bitwise = key.starts_with("bitwise");
+    let memory = key.starts_with("memory");
+    let first_row = !key.contains("after memory") && memory;
+    // columns 15, 16 are not used by the bitwise and memory chiplets
+    if (bitwise || memory) && col >= 15 {
+        return true;
+    }
+    // hasher.md: "in all other cases s0 should be unconstrained"
+    if hasher && col == 1 {
+        return true;
+    }
+    // output row of a hash cycle: RETURN_HASH vs RETURN_STATE is chosen by the requester (bus)
+    if hasher && key.contains("pos=7") && col == 3 {
+        return true;
+    }
+    // node index in the first row of a Merkle path computation is an input (tied by the bus); the
+    // index with the other parity of the lowest bit is an equally valid start
+    if hasher && key.contains("pos=0") && col == 16 && acc * 2 <= tot {
+        return true;
+    }
+    if memory {
+        // the first memory row has no memory predecessor: its cells are inputs
+        if first_row && (2..=14).contains(&col) {
+            return true;
+        }
+        // values written by a write
+        if key.contains("sel=00") && (8..=11).contains(&col) {
+            return true;
+        }
+        // clock cycle of the first access to a (ctx, addr) pair: the delta is the address delta
+        if key.contains("new-addr") && col == 7 {
+            return true;
+        }
+        // d_inv is only read when ctx or addr change
+        if key.contains("same-addr") && col == 14 {
+            return true;
+        }
+        // rare consistent alternatives: the segment may end one row earlier (col 2), a write of
+        // zeros is also a valid initial read (col 3), a context change whose delta happens to fit
+        if key.contains("new-addr") && (col == 2 || col == 3 || col == 5) && acc * 2 <= tot {
+            return true;
+        }
+    }
+    false
 }
 
 fn col_name(col: usize) -> String {
